@@ -86,6 +86,7 @@ class Fuzzer:
         self.token_n = 0
         self.fail_next_schedule_db = False
         self.early_job_started = 0
+        self.early_job_complete = 0
         self.interleavings = 0
         self.resource_manager = FakeResourceManager(world)
         for p in world.pools.values():
@@ -137,6 +138,17 @@ class Fuzzer:
                         self.early_job_started += 1
                     except Exception:  # the report is the worker's business; the POST itself succeeded
                         pass
+                    if self.rng.random() < self.cfg.get('early_job_complete_p', 0.35):
+                        # a very short job: its completion report, too, overtakes the driver's CALL schedule_job
+                        state = self.rng.choice(['succeeded', 'succeeded', 'failed', 'error'])
+                        stc = {'batch_id': key[0], 'job_id': key[1], 'attempt_id': key[2], 'job_group_id': body['job_spec'].get('job_group_id', 0), 'state': state,
+                               'start_time': t, 'end_time': t + 1, 'status': {'state': state}, 'resources': []}
+                        try:
+                            await self.w.dm.job_complete(self._worker_request(inst, {'status': stc, 'marked_job_started': True}))
+                            self.attempts[key]['completed'] = self.attempts[key].get('completed', 0) + 1
+                            self.early_job_complete += 1
+                        except Exception:
+                            pass
             return FakeResponse()
         return run()
 
